@@ -737,6 +737,15 @@ fn get<const D: usize>(v: &mut Dyn<D>, idx: &[usize], via: &str) -> String {
         return "skip".into();
     }
     let idx: [usize; D] = crate::util::to_array(idx);
+    if via.starts_with("unchecked") {
+        // the unchecked getters are only defined for valid indexes: never call them with an index
+        // the checked getter rejects (a case being shrunk may ask for one)
+        match catch(|| v.get_reference(idx).is_some()) {
+            Ok(true) => {}
+            Ok(false) => return "none".into(),
+            Err(k) => return panic_str(k),
+        }
+    }
     let r: Result<Option<u64>, PanicKind> = match via {
         "mut" => catch(|| v.get_reference_mut(idx).map(|r| *r)),
         "unchecked" => catch(|| Some(unsafe { *v.get_reference_unchecked(idx) })),
@@ -772,6 +781,13 @@ fn get<const D: usize>(v: &mut Dyn<D>, idx: &[usize], via: &str) -> String {
 /// was stored (it identifies the cell), or `None`.
 fn set_write<const D: usize>(v: &mut Dyn<D>, idx: &[usize], via: &str) -> Result<Option<u64>, PanicKind> {
     let idx: [usize; D] = crate::util::to_array(idx);
+    if via == "unchecked_mut" {
+        match catch(|| v.get_reference(idx).is_some()) {
+            Ok(true) => {}
+            Ok(false) => return Ok(None),
+            Err(k) => return Err(k),
+        }
+    }
     match via {
         "unchecked_mut" => catch(|| {
             let r = unsafe { v.get_reference_unchecked_mut(idx) };
